@@ -8,9 +8,9 @@ Variable ltb : T -> T -> bool.   (* Python  a < b   on list elements *)
 Variable eqb : T -> T -> bool.   (* Python  a == b  on list elements *)
 
 Definition find_eq (sorted_list : list T) (x : T) : res :=
-  let i := (bisect_right ltb sorted_list x) in
-  econd (eand (ebind (Some i) (fun u => Some (negb (Z.eqb u 0)))) (fun _ => (ebind (py_index sorted_list (i - (1)%Z)%Z) (fun u => ebind (Some x) (fun v => Some (eqb u v))))))
-    (Ret (Some (i - (1)%Z)%Z))
+  let i := (bisect_left ltb sorted_list x) in
+  econd (eand (ebind (Some i) (fun u => ebind (Some (py_len sorted_list)) (fun v => Some (negb (Z.eqb u v))))) (fun _ => (ebind (py_index sorted_list i) (fun u => ebind (Some x) (fun v => Some (eqb u v))))))
+    (Ret (Some i))
     (Ret None).
 
 Definition find_lt (sorted_list : list T) (x : T) : res :=
